@@ -72,4 +72,75 @@ theorem encList_eq_flatten (ts : List Item) : encList ts = (ts.map enc).flatten 
   | nil => rw [encList]; rfl
   | cons x xs ih => rw [encList, ih]; rfl
 
+/-! ### ANY wire (hostile peers): conservation, framing and the limit
+
+No hypothesis on the bytes: whatever is on the wire and whatever the schedule, `Recv` consumes a prefix of
+the wire in order; when it returns a message, the message is exactly the consumed prefix, it is one frame,
+and it respects the configured limit. -/
+
+theorem recvLoop_any (max : Nat) :
+    ∀ (fuel : Nat) (t : Transport) (buf : Bytes) (cap : Nat),
+      buf.length < computeNeededBytes buf →
+      ∃ got, buf ++ t.wire = got ++ (recvLoop max fuel t buf (computeNeededBytes buf) cap).t.wire ∧
+        ∀ bs, (recvLoop max fuel t buf (computeNeededBytes buf) cap).res = .msg bs →
+          bs = got ∧ Framed bs ∧ (max = 0 ∨ bs.length ≤ max) := by
+  intro fuel
+  induction fuel with
+  | zero =>
+    intro t buf cap _
+    exact ⟨buf, by simp [recvLoop], fun bs h => by simp [recvLoop] at h⟩
+  | succ fuel ih =>
+    intro t buf cap hlt
+    obtain ⟨n, hn, hr1, hr2⟩ := read_gen t (computeNeededBytes buf - buf.length)
+    have hsplit := read_split t (computeNeededBytes buf - buf.length)
+    rw [recvLoop_succ]
+    generalize t.read (computeNeededBytes buf - buf.length) = r at hr1 hr2 hsplit
+    obtain ⟨rb, re, t'⟩ := r
+    simp only at hr1 hr2 hsplit ⊢
+    have hcons : buf ++ t.wire = (buf ++ rb) ++ t'.wire := by
+      rw [List.append_assoc, hsplit]
+    have hrbl : rb.length ≤ computeNeededBytes buf - buf.length := by
+      rw [hr1, List.length_take]; omega
+    split
+    · split
+      · exact ⟨buf ++ rb, hcons, fun bs h => by simp at h⟩
+      · exact ⟨buf ++ rb, hcons, fun bs h => by simp at h⟩
+    · split
+      · exact ⟨buf ++ rb, hcons, fun bs h => by simp at h⟩
+      · rename_i hbig
+        split
+        · rename_i hge
+          refine ⟨buf ++ rb, hcons, fun bs h => ?_⟩
+          simp only [RecvOut.mk.injEq, RecvRes.msg.injEq] at h
+          -- the buffer never holds more than the announced size
+          have hle : (buf ++ rb).length ≤ computeNeededBytes (buf ++ rb) := by
+            by_cases h8 : buf.length < 8
+            · have := computeNeededBytes_short h8
+              have := computeNeededBytes_ge (buf ++ rb)
+              rw [List.length_append]; omega
+            · rw [computeNeededBytes_prefix buf rb (by omega), List.length_append]; omega
+          have hbs : bs = buf ++ rb := by
+            rw [← h]; exact List.take_of_length_le hle
+          have h8' := computeNeededBytes_ge (buf ++ rb)
+          refine ⟨hbs, ?_, ?_⟩
+          · rw [hbs]; exact ⟨by omega, by omega⟩
+          · rw [hbs]
+            by_cases hm0 : max = 0
+            · exact Or.inl hm0
+            · right
+              have : ¬ computeNeededBytes (buf ++ rb) > max := fun hc => hbig ⟨by omega, hc⟩
+              omega
+        · rename_i hnge
+          split
+          · exact ⟨buf ++ rb, hcons, fun bs h => by simp at h⟩
+          · obtain ⟨got, hg1, hg2⟩ := ih t' (buf ++ rb) (if computeNeededBytes buf > cap then computeNeededBytes buf else cap) (by omega)
+            exact ⟨got, by rw [hcons]; exact hg1, hg2⟩
+
+/-- `Recv` on ANY wire under ANY schedule and limit. -/
+theorem recvC_any (c0 max : Nat) (t : Transport) :
+    ∃ got, t.wire = got ++ (recvC c0 max t).t.wire ∧
+      ∀ bs, (recvC c0 max t).res = .msg bs → bs = got ∧ Framed bs ∧ (max = 0 ∨ bs.length ≤ max) := by
+  have := recvLoop_any max (t.wire.length + t.sched.length + 2) t [] c0 (by decide)
+  simpa [recvC, computeNeededBytes_nil] using this
+
 end Kmip
